@@ -87,6 +87,16 @@ enum class expect
 // accept: the language of the grammar where it is obvious (parse_string must succeed exactly on it)
 using accept_fn = bool (*)(std::string const &);
 
+// decimal strings at and beyond the limits of the integer types: run for totality only (no expectation: whether a
+// type's minimum can be parsed is reported through the either and therefore allowed)
+std::vector<std::string> limit_inputs()
+{
+  return {"127", "128", "-128", "-129", "255", "256", "32767", "32768", "-32768", "-32769", "65535", "65536", "2147483647", "2147483648",
+          "-2147483647", "-2147483648", "-2147483649", "4294967295", "4294967296", "9223372036854775807", "9223372036854775808",
+          "-9223372036854775807", "-9223372036854775808", "-9223372036854775809", "18446744073709551615", "18446744073709551616",
+          "99999999999999999999999", "-99999999999999999999999", "0", "-0", "00", "-"};
+}
+
 template <class Ch, class Parser> void run(char const *gname, Parser const &parser, expect ex = expect::none, accept_fn accept = nullptr)
 {
   char const *const chn = std::is_same_v<Ch, char> ? "char" : "wchar_t";
@@ -145,6 +155,18 @@ template <class Ch, class Parser> void run(char const *gname, Parser const &pars
       });
     }
   }
+  if (ex != expect::none || std::is_arithmetic_v<p::result_of<Parser>>)
+    for (auto const &s : limit_inputs())
+    {
+      if (!e_p.begin_text(show(s)))
+        continue;
+      vrt::nontrivial(true);
+      vrt::maybe_sample();
+      guarded(e_p.name, [&] {
+        auto const r = p::parse_string(parser, std::basic_string<Ch>(s.begin(), s.end()));
+        VRT_CHECK(r.has_success() != r.has_failure(), e_p.name + ":either", "neither success nor failure");
+      });
+    }
 }
 
 // hand-written matchers for the small languages
